@@ -117,6 +117,27 @@ pub(crate) struct Gen<'a> {
     pub frag: bool,
 }
 
+/// the short form of a full list mask, if it has one: n!*@* -> n, n!*@h -> n@h, n!u@* -> n!u
+pub(crate) fn shorten_mask(m: &str) -> String {
+    if let Some((n, rest)) = m.split_once('!') {
+        if let Some((u, h)) = rest.split_once('@') {
+            if n.contains('@') || u.contains('!') || h.contains('@') || h.contains('!') {
+                return m.to_string();
+            }
+            if u == "*" && h == "*" && !n.is_empty() {
+                return n.to_string();
+            }
+            if u == "*" && !n.is_empty() {
+                return format!("{}@{}", n, h);
+            }
+            if h == "*" {
+                return format!("{}!{}", n, u);
+            }
+        }
+    }
+    m.to_string()
+}
+
 fn ip_for(i: usize, v6: bool) -> String {
     if v6 && i % 3 == 2 {
         format!("2001:db8::{:x}", i + 1)
@@ -148,13 +169,17 @@ impl<'a> Gen<'a> {
         self.m.conns[c].nick.clone().unwrap_or_default()
     }
     fn pick_nick_pool(&mut self) -> String {
-        if self.r.chance(1, 40) {
+        if self.r.chance(1, 25) {
             // nicknames at and beyond the advertised NICKLEN (the server accepts any length); they share a 200-character prefix
             let base = format!("L{}", "o".repeat(199));
-            return match self.r.below(3) {
+            return match self.r.below(6) {
                 0 => base,
                 1 => format!("{}y", base),
-                _ => format!("{}{}", base, "z".repeat(30)),
+                2 => format!("{}{}", base, "z".repeat(30)),
+                // legal for this server: only '.', ',', ':' and a leading '#'/'&' are forbidden in a nickname
+                3 => "lu!cki".to_string(),
+                4 => "at@sign".to_string(),
+                _ => "x!y@z".to_string(),
             };
         }
         if self.r.chance(1, 30) && !self.m.users.is_empty() {
@@ -169,6 +194,16 @@ impl<'a> Gen<'a> {
         NICKS[self.r.below(std::cmp::min(self.prof.nick_pool, NICKS.len()))].to_string()
     }
     fn pick_chan_pool(&mut self) -> String {
+        if self.r.chance(1, 30) {
+            // unusual but legal channel names: dots, multi-byte, long
+            return match self.r.below(5) {
+                0 => "#rust.dev".to_string(),
+                1 => "&x.y".to_string(),
+                2 => "#żółw".to_string(),
+                3 => "#.".to_string(),
+                _ => format!("#{}", "c".repeat(200)),
+            };
+        }
         CHANS[self.r.below(std::cmp::min(self.prof.chan_pool, CHANS.len()))].to_string()
     }
     fn pick_chan(&mut self) -> String {
@@ -809,11 +844,17 @@ impl<'a> Gen<'a> {
                         let mut pws: Vec<String> = vec!["wrongpw".to_string()];
                         if let Some(p) = cfgpass {
                             pws.push(p.clone());
-                            pws.push(p);
+                            pws.push(p.clone());
+                            // neighbours of the right password: padded with blanks (as a trailing parameter), other case
+                            pws.push(format!(":{} ", p));
+                            pws.push(format!(": {}", p));
+                            pws.push(format!(":{}\t", p));
+                            pws.push(p.to_uppercase());
                         }
                         for u in &self.m.cfg.users {
                             if let Some(p) = &u.password {
                                 pws.push(p.clone());
+                                pws.push(format!(":{} ", p));
                             }
                         }
                         format!("PASS {}", pws[self.r.below(pws.len())])
@@ -967,6 +1008,27 @@ impl<'a> Gen<'a> {
                     Some(ch) if self.r.chance(9, 10) => ch,
                     _ => self.pick_chan(),
                 };
+                if self.r.chance(1, 14) {
+                    // malformed mode changes: rejected as a whole (696 / 472), nothing executed - also when a valid letter precedes
+                    let who = self.pick_member(&ch).unwrap_or_else(|| "ann".to_string());
+                    let l = match self.r.below(14) {
+                        0 => format!("MODE {} +o", ch),
+                        1 => format!("MODE {} +v-o {}", ch, who),
+                        2 => format!("MODE {} +l", ch),
+                        3 => format!("MODE {} +l abc", ch),
+                        4 => format!("MODE {} +l -5", ch),
+                        5 => format!("MODE {} +k", ch),
+                        6 => format!("MODE {} +z", ch),
+                        7 => format!("MODE {} +iz", ch),
+                        8 => format!("MODE {} +o a.b", ch),
+                        9 => format!("MODE {} +mo", ch),
+                        10 => format!("MODE {} -t+x", ch),
+                        11 => format!("MODE {} +t +l x", ch),
+                        12 => format!("MODE {} +b *!*@* +q", ch),
+                        _ => format!("MODE {} +il 99999999999999999999999", ch),
+                    };
+                    return self.say(c, &l);
+                }
                 let nletters = if self.r.chance(1, 3) { self.r.range(2, 4) } else { 1 };
                 let mut ms = String::new();
                 let mut args: Vec<String> = vec![];
@@ -1002,7 +1064,8 @@ impl<'a> Gen<'a> {
                                 })
                                 .unwrap_or_default();
                             if !set && !existing.is_empty() && self.r.chance(4, 5) {
-                                args.push(existing[self.r.below(existing.len())].clone());
+                                let m = existing[self.r.below(existing.len())].clone();
+                                args.push(if self.r.chance(1, 3) { shorten_mask(&m) } else { m });
                             } else {
                                 let m = self.mask();
                                 args.push(m);
@@ -1068,7 +1131,13 @@ impl<'a> Gen<'a> {
                         _ => c.invex.iter().cloned().collect(),
                     })
                     .unwrap_or_default();
-                let mask = if !set && !existing.is_empty() { existing[self.r.below(existing.len())].clone() } else { self.mask_adv(None) };
+                let mask = if !set && !existing.is_empty() {
+                    let m = existing[self.r.below(existing.len())].clone();
+                    // sometimes the short form that is completed to the stored mask (nick, nick@host, nick!user)
+                    if self.r.chance(1, 2) { shorten_mask(&m) } else { m }
+                } else {
+                    self.mask_adv(None)
+                };
                 let line = format!("MODE {} {}{} {}", ch, if set { '+' } else { '-' }, l, mask);
                 self.say(c, &line)
             }
@@ -1180,7 +1249,19 @@ impl<'a> Gen<'a> {
             K::Whowas => {
                 let hist: Vec<String> = self.m.history.keys().cloned().collect();
                 let n = if !hist.is_empty() && self.r.chance(3, 4) { hist[self.r.below(hist.len())].clone() } else { self.pick_nick_pool() };
-                self.say(c, &format!("WHOWAS {}", n))
+                let line = match self.r.below(10) {
+                    0 => format!("WHOWAS {} 0", n),
+                    1 => format!("WHOWAS {} 1", n),
+                    2 => format!("WHOWAS {} {}", n, self.r.range(2, 20)),
+                    3 => match self.r.below(4) {
+                        0 => format!("WHOWAS {} x", n),
+                        1 => format!("WHOWAS {} -1", n),
+                        2 => format!("WHOWAS {} 1 other.srv", n),
+                        _ => format!("WHOWAS {} 99999999999999999999999", n),
+                    },
+                    _ => format!("WHOWAS {}", n),
+                };
+                self.say(c, &line)
             }
             K::Oper => {
                 let ops = self.m.cfg.operators.clone();
@@ -1337,7 +1418,7 @@ impl<'a> Gen<'a> {
                 self.say(c, l)
             }
             K::Opaque => {
-                let l = ["VERSION", "TIME", "INFO", "HELP", "HELP COMMANDS", "LINKS", "CONNECT other.srv 6667", "REHASH", "RESTART", "VERSION other.srv", "TIME other.srv", "HELP nosuchtopic"][self.r.below(12)];
+                let l = ["VERSION", "TIME", "INFO", "HELP", "HELP COMMANDS", "LINKS", "CONNECT other.srv 6667", "REHASH", "RESTART", "VERSION other.srv", "TIME other.srv", "HELP nosuchtopic", "MOTD other.srv", "ADMIN other.srv", "LIST #a other.srv", "WHOIS other.srv ann", "WHOIS irc.sim bob", "STATS u other.srv", "LUSERS * other.srv", "INFO other.srv", "LINKS other.srv *"][self.r.below(21)];
                 self.say(c, l)
             }
             K::Nick => {
@@ -1352,7 +1433,13 @@ impl<'a> Gen<'a> {
             K::Ping => {
                 self.uniq += 1;
                 let tok = format!("tok{}", self.uniq);
-                self.say(c, &format!("PING {}", tok))
+                let line = match self.r.below(6) {
+                    0 => format!("PING {} {}", tok, self.m.cfg.name),
+                    1 => format!("PING {} :other server", tok),
+                    2 => format!("PING :{} with blanks", tok),
+                    _ => format!("PING {}", tok),
+                };
+                self.say(c, &line)
             }
             K::Quit => {
                 let line = if self.r.chance(1, 2) { "QUIT".to_string() } else { format!("QUIT :{}", self.text()) };
